@@ -28,6 +28,7 @@ type vfCleanScenario struct {
 	Files    []vfNamedFile     `json:"files,omitempty"`  // pre-existing multi-entry files
 	SFiles   map[string]string `json:"sfiles,omitempty"` // pre-existing standalone files
 	Other    map[string]string `json:"other,omitempty"`  // other pre-existing files (any name)
+	Append   map[string]string `json:"append,omitempty"` // raw text appended to a pre-existing multi-entry file (e.g. an entry whose terminator is missing)
 	Dirs     []string          `json:"dirs,omitempty"`   // pre-existing sub-directories (each gets one file inside)
 	Tests    []vfTestExec      `json:"tests"`
 	Tests2   []vfTestExec      `json:"tests2,omitempty"` // if set: what the 2nd, 3rd ... execution does instead (data-dependent call counts)
@@ -100,6 +101,14 @@ func vfRunClean(c *vfCtx, sc vfCleanScenario) *vfCleanObs {
 	vfWriteModelFiles(dir, m)
 	for n, v := range sc.Other {
 		os.WriteFile(filepath.Join(dir, n), []byte(v), 0o644)
+	}
+	for n, v := range sc.Append {
+		f, err := os.OpenFile(filepath.Join(dir, n), os.O_APPEND|os.O_WRONLY, 0o644)
+		if err != nil {
+			panic(err)
+		}
+		f.WriteString(v)
+		f.Close()
 	}
 	for _, d := range sc.Dirs {
 		os.MkdirAll(filepath.Join(dir, d), 0o755)
